@@ -289,6 +289,7 @@ def l_trace(F, R):
         # a decoder that reads a (user-properties-only) property block inline instead of through XProperties::decode_async:
         # expand that block on the encoder side too
         dk = set(k for k, _f in D)
+        E0 = list(E)
         E2 = []
         for k, fld in E:
             if isinstance(k, str) and k.startswith("enc:") and k.endswith("Properties") and k not in dk:
@@ -326,6 +327,20 @@ def l_trace(F, R):
             R.check(not lost_d and not it.altered, "L-trace", "%s/value-read" % key,
                     "%s: the decoder does not store %s in the packet as read%s" % (
                         short, ", ".join(lost_d[:3]) or "a value", "; fields holding a function of a value read: %s" % sorted(set(it.altered.values())) if it.altered else ""), where=dec)
+            # byte-sized items: only CONNECT's flags byte and v5 SUBSCRIBE's option byte are computed from several fields (T-bits
+            # decides them over their complete domains); every other byte an encoder writes is one field as it is (`code as u8`)
+            def u8_unlabelled(sk):
+                c = 0
+                for k_, f_ in sk:
+                    if isinstance(k_, tuple) and k_[0] == "each":
+                        c += u8_unlabelled(k_[1])
+                    elif k_ == "u8" and f_ is None:
+                        c += 1
+                return c
+            allowed = 1 if short == "Connect" or (short == "Subscribe" and ty.startswith("v5::")) else 0
+            nb = u8_unlabelled(E0)
+            R.check(nb <= allowed, "L-trace", "%s/byte-written" % key,
+                    "%s: the encoder writes %d byte-sized item(s) that are not one field of the packet as it is (%d expected: the flags / options byte)" % (short, nb, allowed), where=dec)
             labelled = sum(1 for (k1, f1), (k2, f2) in zip(E, D) if f1 is not None and f2 is not None)
             R.sample({"rule": "L-trace", "type": ty, "items": len(E), "field-labelled on both sides": labelled}) if short in ("Connect", "Publish") else None
     R.floor("L-trace", "body types compared", n, 15)
